@@ -207,8 +207,36 @@ x 240118#L0 done in the second headless h2
 
 - 240320#S9 lonely note #zeta #alpha #mid [[zz]] [[aa]] @zc @ac
 """,
+    # one day with many allocations: counters that differ only in letter case
+    "cased.zo": """# CASED
+
+- 240322#0a lower a
+- 240322#0A upper a
+- 240322#0b lower b
+- 240322#0B upper b
+- 240322#0Z upper z
+""",
     "jazz.zo": """# JAZZ
 
 x 240116#KV done in jazz
 """,
 }
+
+
+def big_corpus() -> dict:
+    """600 notes on three pages; 520 of them contain the word 'Widget' (more than any
+    list-size limit a query layer may have in mind), 80 contain 'gadget' only."""
+    from mc.models import zid_model as ZM
+
+    sufs = []
+    for sfx in ZM.all_suffixes():
+        sufs.append(sfx)
+        if len(sufs) == 600:
+            break
+    pages = {"wa.zo": ["# WA #t1", ""], "wb.zo": ["# WB", ""], "sub/wc.zo": ["# WC +j1", ""]}
+    names = list(pages)
+    for k, sfx in enumerate(sufs):
+        word = "Widget" if k < 520 else "gadget"
+        kind = "-o"[k % 2]
+        pages[names[k % 3]].append(f"{kind} 240601#{sfx} {word} number{k} [[wb]]" if k % 50 == 0 else f"{kind} 240601#{sfx} {word} number{k}")
+    return {n: "\n".join(ls) + "\n" for n, ls in pages.items()}
